@@ -117,6 +117,9 @@ func (l *Lexer) Next() (token.Token, error) {
 	// multi-line comments
 	if l.ch == rune('/') && l.peekChar() == rune('*') {
 		l.skipMultiLineComment()
+		// Start over, so that another comment may follow this one and the
+		// start position of the next token is recorded after the comment
+		return l.Next()
 	}
 
 	if l.prevToken.Type == token.EOF {
